@@ -33,7 +33,8 @@ ASSUMPTIONS = [
 ]
 
 KEYS = ('transport', 'pib', 'tpm')
-LOC_KINDS = ['none', 'abs-existing', 'rel-conf-existing', 'rel-cwd-existing', 'rel-both-existing', 'missing-abs', 'missing-rel']
+LOC_KINDS = ['none', 'abs-existing', 'rel-conf-existing', 'rel-cwd-existing', 'rel-both-existing', 'missing-abs', 'missing-rel',
+             'abs-existing-file', 'rel-conf-existing-file']
 
 
 class Sandbox:
@@ -79,6 +80,18 @@ def materialise_loc(sb, kind, tag, conf_dir):
         p = os.path.join(sb.root, 'stores', tag)
         os.makedirs(p, exist_ok=True)
         return p, p
+    if kind == 'abs-existing-file':
+        # a location that exists but is not a directory (e.g. a store kept in one file, or a device): it exists, so it is used as given
+        p = os.path.join(sb.root, 'stores', tag + '.store')
+        os.makedirs(os.path.dirname(p), exist_ok=True)
+        open(p, 'w').close()
+        return p, p
+    if kind == 'rel-conf-existing-file':
+        rel = f'relstore-{tag}.store'
+        if conf_dir is None:
+            return rel, 'MISSING'
+        open(os.path.join(conf_dir, rel), 'w').close()
+        return rel, os.path.join(conf_dir, rel)
     if kind == 'rel-conf-existing':
         rel = f'relstore-{tag}'
         if conf_dir is None:
@@ -357,8 +370,10 @@ def _filespec(draw):
 @st.composite
 def _case(draw):
     return {'files': [draw(st.one_of(st.none(), _filespec())) for _ in range(3)],
-            'env': {'transport': draw(st.one_of(st.none(), _TRANSPORTS)), 'pib': draw(st.one_of(st.none(), _PIB)),
-                    'tpm': draw(st.one_of(st.none(), _TPM))},
+            # (a variable may be present but EMPTY - `NDN_CLIENT_TRANSPORT= app`: it is present, so it is the value used)
+            'env': {'transport': draw(st.one_of(st.none(), _TRANSPORTS, st.just(''))),
+                    'pib': draw(st.one_of(st.none(), _PIB, _PIB, st.just({'scheme': '', 'loc': 'none', 'bare': True}))),
+                    'tpm': draw(st.one_of(st.none(), _TPM, _TPM, st.just({'scheme': '', 'loc': 'none', 'bare': True})))},
             'default_exists': {'pib': [draw(st.booleans()), draw(st.booleans())], 'tpm': [draw(st.booleans()), draw(st.booleans())]},
             'open_keychain': draw(st.booleans()), 'reread': draw(st.sampled_from([None, None, 0, 5])),
             'symlink': draw(st.sampled_from([False, False, True])), 'late_env': draw(st.sampled_from([False, False, True])),
